@@ -7,6 +7,7 @@ the identity), results are read raw and converted by the model according to thei
 import ctypes
 import json
 import os
+import random
 
 from ..rt import RT, MonitorViolation
 from ..ctx import hx
@@ -142,10 +143,13 @@ class Cv(object):
         d1, P1 = rng.choice(self.pool)
         if rng.random() < 0.3:
             return d1, P1
-        d2, P2 = rng.choice(self.pool[8:])
-        P = self.C.add(P1, P2)
-        d = (d1 + d2) % self.n
-        if len(self.pool) < 400 and P is not None:
+        while True:
+            d2, P2 = rng.choice(self.pool[8:])
+            P = self.C.add(P1, P2)
+            d = (d1 + d2) % self.n
+            if P is not None:
+                break
+        if len(self.pool) < 400:
             self.pool.append((d, P))
         return d, P
 
@@ -249,6 +253,7 @@ class W(object):
         self.ctx = ctx
         self.R = R
         self.rng = ctx.rng
+        self.crng = random.Random(0)
         K = R.K
         self.K = K
         self.SZ = K["sizeof_ep_st"]
@@ -273,6 +278,16 @@ class W(object):
         ctx.note("confined_known_fatal", sorted(self.confined))
 
     # ------------------------------------------------------------------ helpers
+    def begin(self, key, desc=None, **kw):
+        """ctx.begin plus a per-case generator: the main stream advances by exactly one draw whether or not the case
+        runs, everything random inside a case comes from self.crng - a replay (which runs only the cases of one
+        key) therefore sees the same inputs as the original run"""
+        seed = self.rng.getrandbits(64)
+        if self.ctx.begin(key, desc, **kw):
+            self.crng = random.Random(seed)
+            return True
+        return False
+
     def has(self, fn):
         if self.R.has(fn):
             return True
@@ -280,14 +295,14 @@ class W(object):
         return False
 
     def scrub(self, P, n=1):
-        ctypes.memset(P, self.rng.randrange(1, 256), self.SZ * n)
+        ctypes.memset(P, self.crng.randrange(1, 256), self.SZ * n)
 
     def snap(self, P, n=1):
         return ctypes.string_at(P, self.SZ * n)
 
     def rz(self, cv):
         """a non-zero Z"""
-        rng, p = self.rng, cv.p
+        rng, p = self.crng, cv.p
         c = rng.randrange(8)
         if c == 0:
             return 1
@@ -304,10 +319,10 @@ class W(object):
         R = self.R
         if Pm is None:
             reps = cv.infreps[coord]
-            i = self.rng.randrange(len(reps)) if inf is None else inf % len(reps)
+            i = self.crng.randrange(len(reps)) if inf is None else inf % len(reps)
             x, y, z, tg, nm = reps[i]
             if x == "r":      # valid projective encodings of the identity with a random scale
-                lam = self.rng.randrange(1, cv.p)
+                lam = self.crng.randrange(1, cv.p)
                 if coord == self.PROJC:
                     x, y = 0, lam
                 else:
@@ -378,9 +393,11 @@ class W(object):
         # each entry: (x, y, z, tag, name); name is part of the ep_cmp keys
         cv.infreps = {B: [(0, 0, 0, B, "set")], Pj: [(0, 0, 0, B, "set"), ("r", "r", 0, Pj, "proj")],
                       J: [(0, 0, 0, B, "set"), ("r", "r", 0, J, "proj")]}
-        if ctx.begin("setup|" + name, {"curve": name}, nontrivial=False):
+        active = self.begin("setup|" + name, {"curve": name}, nontrivial=False)
+        if active or ctx.only is not None:     # a replay of another key still needs the set-up
             try:
-                ctx.check(cv.validate(), "setup|%s|generator" % name, {"why": "model: G on curve and [n]G = O"})
+                if active:
+                    ctx.check(cv.validate(), "setup|%s|generator" % name, {"why": "model: G on curve and [n]G = O"})
                 for sysn, sysc in (("projc", Pj), ("jacob", J)):
                     fn = "ep_add_" + sysn
                     if not R.has(fn):
@@ -402,12 +419,15 @@ class W(object):
                     r = R.call("ep_psi", self.c, self.a)
                     st, Q, can, co, z = self.rd(cv, self.c)
                     lam = cv.find_lambda(Q) if (st == "ok" and not r.caught) else None
-                    ctx.check(lam is not None, "setup|%s|psi-eigenvalue" % name,
-                              {"why": "psi(G) is not [lam]G for a root lam of the characteristic polynomial mod n"})
+                    if active:
+                        ctx.check(lam is not None, "setup|%s|psi-eigenvalue" % name,
+                                  {"why": "psi(G) is not [lam]G for a root lam of the characteristic polynomial mod n"})
             except MonitorViolation as e:
-                ctx.fail(ctx.cur_key + "|" + e.kind, e.detail)
+                if active:
+                    ctx.fail("setup|%s|%s" % (name, e.kind), e.detail)
             finally:
-                ctx.end()
+                if active:
+                    ctx.end()
         cv.ord2 = cv.torsion(2) if law else None
         cv.ord3 = cv.torsion(3) if law else None
         ctx.add("curves_instantiated", 1)
@@ -515,8 +535,9 @@ class W(object):
         else:
             key = "%s|%s|%s|%s%s|alias%d" % (fn, cv.atag, r, pn, qn, alias)
         desc = {"curve": cv.name, "P": self.pdesc(P), "Q": self.pdesc(Q)}
-        if not ctx.begin(key, desc, nontrivial=(P is not None and Q is not None)):
+        if not self.begin(key, desc, nontrivial=(P is not None and Q is not None)):
             return
+        rng = self.crng
         try:
             a, b, c = self.a, self.b, self.c
             desc["Prep"] = self.put(cv, a, P, pc)
@@ -559,8 +580,9 @@ class W(object):
             pcl = "fin"
         key = "%s|%s|%s|%s|alias%d" % (fn, cv.atag, pcl, self.tagname[pc], alias)
         desc = {"curve": cv.name, "P": self.pdesc(P)}
-        if not ctx.begin(key, desc, nontrivial=P is not None):
+        if not self.begin(key, desc, nontrivial=P is not None):
             return
+        rng = self.crng
         try:
             a, c = self.a, self.c
             desc["Prep"] = self.put(cv, a, P, pc)
@@ -602,8 +624,9 @@ class W(object):
         qn = self.tagname[qc] + ("." + cv.infreps[qc][iq][4] if Q is None else "")
         key = "ep_cmp|%s|%s,%s%s" % (r, pn, qn, "|same-object" if same else "")
         desc = {"curve": cv.name, "P": self.pdesc(P), "Q": self.pdesc(Q)}
-        if not ctx.begin(key, desc, nontrivial=(P is not None or Q is not None)):
+        if not self.begin(key, desc, nontrivial=(P is not None or Q is not None)):
             return
+        rng = self.crng
         try:
             desc["Prep"] = self.put(cv, self.a, P, pc, inf=ip)
             pb = self.a
@@ -645,8 +668,9 @@ class W(object):
             exp = 0
         key = "ep_on_curve|%s|%s|%s" % (mode if P is not None else "inf", self.tagname[pc], cv.atag)
         desc = {"curve": cv.name, "P": self.pdesc(pts)}
-        if not ctx.begin(key, desc):
+        if not self.begin(key, desc):
             return
+        rng = self.crng
         try:
             desc["Prep"] = self.put(cv, self.a, pts, pc)
             sa = self.snap(self.a)
@@ -677,10 +701,11 @@ class W(object):
             for j in rng.sample(range(n), rng.randrange(1, n + 1) if n > 1 else 1):
                 pts[j] = None
         key = "ep_norm_sim|%s|%s|%s|%s" % ("n1" if n == 1 else "n", mode, "inplace" if inplace else "separate",
-                                           "hasinf" if withinf else "fin")
+                                           "hasinf" if any(x is None for x in pts) else "fin")
         desc = {"curve": cv.name, "n": n, "P": [self.pdesc(x) for x in pts][:6]}
-        if not ctx.begin(key, desc):
+        if not self.begin(key, desc):
             return
+        rng = self.crng
         t = R.mem(self.SZ * n, rng.randrange(1, 256))
         r = t if inplace else R.mem(self.SZ * n, rng.randrange(1, 256))
         try:
@@ -779,7 +804,7 @@ class W(object):
                         if mine():
                             self.law_norm_sim(cv, n, inplace, withinf, mode)
         # ---- random sampling
-        N = ctx.n(5000, 120000)
+        N = ctx.n(16000, 300000)
         relw = ["gen"] * 6 + ["eq", "eq", "opp", "opp", "OO", "OQ", "PO", "dblrel", "eq2", "ord3", "diff2", "diff2"]
         for it in range(N):
             c = rng.randrange(20)
@@ -941,15 +966,16 @@ class W(object):
             pc = rng.choice([self.BASIC, self.native])
             alias = rng.random() < 0.25 and fn != "ep_mul_gen"
             desc = {"curve": cv.name, "d": hx(d), "k": hx(k), "alias": int(alias)}
-            if not ctx.begin(key, desc, nontrivial=(P is not None and k % n != 0)):
+            if not self.begin(key, desc, nontrivial=(P is not None and k % n != 0)):
                 continue
+            crng = self.crng
             try:
                 desc["Prep"] = self.put(cv, self.a, P, pc)
                 out = self.a if alias else self.c
                 if not alias:
                     self.scrub(self.c)
                 sa = self.snap(self.a)
-                R.poison = rng.randrange(1, 256)
+                R.poison = crng.randrange(1, 256)
                 if fn == "ep_mul_gen":
                     R.bn_put(self.k, k)
                     res = R.call(fn, out, self.k)
@@ -970,12 +996,13 @@ class W(object):
                 continue
             key = "%s|%s|%s|%s" % (fn, cv.kind, kc, pcl)
             desc = {"curve": cv.name, "d": hx(d), "k": hx(k)}
-            if not ctx.begin(key, desc, nontrivial=(P is not None and k % n != 0)):
+            if not self.begin(key, desc, nontrivial=(P is not None and k % n != 0)):
                 continue
+            crng = self.crng
             try:
                 self.scrub(self.c)
                 st = self.snap(tab, size)
-                R.poison = rng.randrange(1, 256)
+                R.poison = crng.randrange(1, 256)
                 R.bn_put(self.k, k)
                 res = R.call(fn, self.c, tab, self.k)
                 self.mul_verdict(cv, fn, key, res, self.c, expected(), inr, [], [(self.k, k)])
@@ -1006,9 +1033,16 @@ class W(object):
             pc = rng.choice([self.BASIC, self.native])
             key = "%s|%s|%s|%s" % (pre, cv.kind, pcl, "B" if pc == self.BASIC else "N")
             desc = {"curve": cv.name, "d": hx(d), "entries": size}
-            if not ctx.begin(key, desc, nontrivial=P is not None):
+            if not self.begin(key, desc, nontrivial=P is not None):
+                if ctx.only is not None and P is not None:
+                    # replay of another key: the table is still needed, build it outside any case
+                    tab = R.mem(self.SZ * size, 0x5A)
+                    self.put(cv, self.a, P, pc)
+                    if not R.call(pre, tab, self.a).caught:
+                        tabs.append((fix, tab, size))
                 continue
-            tab = R.mem(self.SZ * size, rng.randrange(1, 256))
+            crng = self.crng
+            tab = R.mem(self.SZ * size, crng.randrange(1, 256))
             good = False
             try:
                 desc["Prep"] = self.put(cv, self.a, P, pc)
@@ -1044,7 +1078,7 @@ class W(object):
             size = self.K["RLC_EP_TABLE_LWNAF"]
             tab = self.R.mem(self.SZ * size, 0x5A)
             self.put(cv, self.a, P, self.BASIC)
-            if self.ctx.begin("ep_mul_pre_lwnaf|%s|fin|B" % cv.kind, {"curve": cv.name, "d": hx(d)}):
+            if self.begin("ep_mul_pre_lwnaf|%s|fin|B" % cv.kind, {"curve": cv.name, "d": hx(d)}):
                 try:
                     r = self.R.call("ep_mul_pre_lwnaf", tab, self.a)
                     self.ctx.check(not r.caught, None, {"err": r.err})
@@ -1124,8 +1158,9 @@ class W(object):
             pc = rng.choice([self.BASIC, self.native])
             key = "ep_mul_cof|%s|%s|alias%d" % (fam, "inf" if P is None else "fin", alias)
             desc = {"curve": cv.name, "P": self.pdesc(P)}
-            if not ctx.begin(key, desc, nontrivial=P is not None):
+            if not self.begin(key, desc, nontrivial=P is not None):
                 continue
+            crng = self.crng
             try:
                 desc["Prep"] = self.put(cv, self.a, P, pc)
                 out = self.a if alias else self.c
@@ -1175,18 +1210,19 @@ class W(object):
             else:
                 key = "%s|%s|%s|%s" % (fn, cv.kind, rel, pc)
             desc = {"curve": cv.name, "dP": hx(dP), "k": hx(k), "dQ": hx(dQ), "m": hx(m)}
-            if not ctx.begin(key, desc, nontrivial=(P is not None and Q is not None and k % n != 0 and m % n != 0)):
+            if not self.begin(key, desc, nontrivial=(P is not None and Q is not None and k % n != 0 and m % n != 0)):
                 continue
+            crng = self.crng
             try:
                 a, b, c = self.a, self.b, self.c
-                desc["Prep"] = self.put(cv, a, P, rng.choice([self.BASIC, self.native]))
-                desc["Qrep"] = self.put(cv, b, Q, rng.choice([self.BASIC, self.native]))
-                al = rng.randrange(6)
+                desc["Prep"] = self.put(cv, a, P, crng.choice([self.BASIC, self.native]))
+                desc["Qrep"] = self.put(cv, b, Q, crng.choice([self.BASIC, self.native]))
+                al = crng.randrange(6)
                 out = a if (al == 0 and not gen) else (b if al == 1 else c)
                 if out == c:
                     self.scrub(c)
                 sa, sb = self.snap(a), self.snap(b)
-                R.poison = rng.randrange(1, 256)
+                R.poison = crng.randrange(1, 256)
                 R.bn_put(self.k, k)
                 R.bn_put(self.m, m)
                 if gen:
@@ -1265,8 +1301,9 @@ class W(object):
         ncl = "n0" if cnt == 0 else ("n1" if cnt == 1 else ("n<=10" if cnt <= 10 else "n>10"))
         key = "ep_mul_sim_lot|%s|%s|%s" % (cv.kind, ncl, pc)
         desc = {"curve": cv.name, "n": cnt, "d": [hx(d) for d, _ in pts][:8], "k": [hx(k) for k in ks][:8]}
-        if not ctx.begin(key, desc, nontrivial=cnt > 0):
+        if not self.begin(key, desc, nontrivial=cnt > 0):
             return
+        rng = self.crng
         parr = R.mem(self.SZ * cnt, rng.randrange(1, 256))
         karr = R.mem(R.bn_sz * cnt, rng.randrange(1, 256))
         try:
@@ -1313,8 +1350,9 @@ class W(object):
         ncl = "n1" if cnt == 1 else "n"
         key = "ep_mul_sim_dig|%s|%s|%s" % (cv.kind, ncl, "allzero" if not any(ks) else "k")
         desc = {"curve": cv.name, "n": cnt, "d": [hx(d) for d, _ in pts][:8], "k": [hx(k) for k in ks][:8]}
-        if not ctx.begin(key, desc):
+        if not self.begin(key, desc):
             return
+        rng = self.crng
         parr = R.mem(self.SZ * cnt, rng.randrange(1, 256))
         karr = R.put(b"".join(k.to_bytes(R.DB, "little") for k in ks))
         try:
